@@ -14,8 +14,14 @@ from dask.dataframe.utils import (
 from dask.utils import M
 
 from dask_expr._accessor import Accessor, PropertyMap
-from dask_expr._expr import Blockwise, Elemwise, Projection
+from dask_expr._expr import (
+    Blockwise,
+    Elemwise,
+    Projection,
+    determine_column_projection,
+)
 from dask_expr._reductions import ApplyConcatApply
+from dask_expr._util import _convert_to_list
 
 
 class CategoricalAccessor(Accessor):
@@ -166,7 +172,25 @@ class AsUnknown(Elemwise):
 class Categorize(Blockwise):
     _parameters = ["frame", "categories", "index"]
     operation = staticmethod(_categorize_block)
-    _projection_passthrough = True
+
+    def _simplify_up(self, parent, dependents):
+        if isinstance(parent, Projection):
+            columns = determine_column_projection(self, parent, dependents)
+            columns = _convert_to_list(columns)
+            columns = [col for col in self.frame.columns if col in columns]
+            if columns == self.frame.columns:
+                return
+            # The categories are keyed by column: only those of the remaining
+            # columns can be applied, and the input stays a frame
+            categories = {
+                col: cats
+                for col, cats in self.operand("categories").items()
+                if col in columns
+            }
+            return type(parent)(
+                type(self)(self.frame[columns], categories, self.operand("index")),
+                *parent.operands[1:],
+            )
 
     @functools.cached_property
     def _meta(self):
